@@ -28,37 +28,6 @@ namespace sqf
             using iterator = std::vector<sqf::runtime::value>::iterator;
         private:
             std::vector<sqf::runtime::value> m_value;
-            bool recursion_test_(std::vector<std::shared_ptr<d_array>>& visited)
-            {
-                for (auto& it : m_value)
-                {
-                    if (it.type() == data_type())
-                    {
-                        // Get child
-                        auto arr = it.data<sqf::types::d_array>();
-
-                        // Check if child was visited already
-                        if (std::find(visited.begin(), visited.end(), arr) != visited.end())
-                        {
-                            // Child already was visited, recursion test failed.
-                            return false;
-                        }
-
-                        // Add child to visited list
-                        visited.push_back(arr);
-
-                        // Check child recursion
-                        if (!arr->recursion_test_(visited))
-                        {
-                            return false;
-                        }
-
-                        // Remove child from visited list
-                        visited.pop_back();
-                    }
-                }
-                return true;
-            }
         protected:
             bool do_equals(std::shared_ptr<data> other, bool invariant) const override
             {
@@ -142,7 +111,24 @@ namespace sqf
 
             // Returns true, if no recursion is present.
             // Returns false, if current array state contains a recursion.
-            bool recursion_test() { std::vector<std::shared_ptr<d_array>> vec; return recursion_test_(vec); }
+            bool recursion_test() const { std::vector<const sqf::runtime::data*> path; return recursion_test_(path); }
+            bool recursion_test_(std::vector<const sqf::runtime::data*>& path) const override
+            {
+                if (std::find(path.begin(), path.end(), this) != path.end())
+                { // This array is one of its own (indirect) elements.
+                    return false;
+                }
+                path.push_back(this);
+                for (auto& it : m_value)
+                { // Arrays and other containers (hashmaps) look into themselves, anything else contains nothing.
+                    if (!it.empty() && !it.data()->recursion_test_(path))
+                    {
+                        return false;
+                    }
+                }
+                path.pop_back();
+                return true;
+            }
 
 
 
